@@ -71,6 +71,7 @@ func ValueTypes() []VT {
 		VT{"castDuration", "cast", func(f *dsl.Field) { f.T = dsl.Int64; f.CastType = "Duration" }, true, false, true},
 		VT{"castDurationSint", "cast", func(f *dsl.Field) { f.T = dsl.Sint64; f.CastType = "Duration" }, true, false, true},
 		VT{"castDurationSfixed", "cast", func(f *dsl.Field) { f.T = dsl.Sfixed64; f.CastType = "Duration" }, true, false, false},
+		VT{"castHumanDuration", "cast", func(f *dsl.Field) { f.T = dsl.String; f.CastType = "HumanDuration" }, true, false, true},
 		VT{"castString", "cast", func(f *dsl.Field) { f.T = dsl.String; f.CastType = "MyString" }, true, false, true},
 		VT{"castInt", "cast", func(f *dsl.Field) { f.T = dsl.Int32; f.CastType = "MyInt" }, true, false, true},
 		VT{"castForeignFloat", "cast", func(f *dsl.Field) { f.T = dsl.Double; f.CastType = dsl.TFX + ".Duration" }, true, false, true},
@@ -763,6 +764,13 @@ func F4() []*Case {
 		{Name: "Counts", Num: 4, T: dsl.Int64, Card: dsl.Map},
 		{Name: "List", Num: 5, T: dsl.Int64, Card: dsl.Repeated},
 	}}
+	holder2 := &dsl.Message{Name: "Boxed", Fields: []*dsl.Field{
+		{Name: "value", Num: 1, T: dsl.Msg, Ref: "Leaf"},
+		{Name: "items", Num: 2, T: dsl.Msg, Ref: "Plain", Card: dsl.Map},
+		{Name: "key", Num: 3, T: dsl.Msg, Ref: "Plain"},
+		{Name: "same", Num: 4, T: dsl.Msg, Ref: "Leaf", Card: dsl.Map, Nullable: dsl.B(false)},
+		{Name: "elems", Num: 5, T: dsl.Msg, Ref: "Leaf", Card: dsl.Repeated},
+	}}
 	named := &dsl.Message{Name: "Root", Fields: []*dsl.Field{
 		{Name: "value", Num: 1, T: dsl.String},
 		{Name: "tags", Num: 2, T: dsl.String, Card: dsl.Map},
@@ -772,6 +780,7 @@ func F4() []*Case {
 		{Name: "Levels", Num: 6, T: dsl.Enum, Ref: "Mode", Card: dsl.Map},
 		{Name: "Flag", Num: 7, T: dsl.Bool, JSONTag: dsl.S("elem")},
 		{Name: "Flags", Num: 8, T: dsl.Bool, Card: dsl.Map},
+		{Name: "Boxed", Num: 9, T: dsl.Msg, Ref: "Boxed"},
 	}}
 	// a nullable embedded message that itself embeds a nullable message (children of every kind two
 	// nullable embedded parents deep)
@@ -806,7 +815,7 @@ func F4() []*Case {
 		nm := map[bool]string{false: "val", true: "ptr"}
 		out = append(out, &Case{Label: "F4/embed-in-embed/" + nm[combo[0]] + ">" + nm[combo[1]], Family: "F4", Tags: map[string]string{"card": "embed", "vt": "embed-in-embed-" + nm[combo[0]] + "-" + nm[combo[1]], "class": "embedded", "pos": "P6>P6"}, File: newFile(root, mid, &in), Cfg: BaseConfig("Root")})
 	}
-	out = append(out, &Case{Label: "F4/value-named-siblings", Family: "F4", Tags: map[string]string{"card": "map", "vt": "value-named-siblings", "class": "scalar", "pos": "P0"}, File: newFile(named, sample, blob), Cfg: BaseConfig("Root")})
+	out = append(out, &Case{Label: "F4/value-named-siblings", Family: "F4", Tags: map[string]string{"card": "map", "vt": "value-named-siblings", "class": "scalar", "pos": "P0"}, File: newFile(named, sample, blob, holder2), Cfg: BaseConfig("Root")})
 	return out
 }
 
